@@ -23,7 +23,23 @@ TRI_PTS = [[0.0, 0.0], [1.0, 0.0], [2.0, 0.2], [0.0, 1.0], [1.0, 1.1], [2.0, 1.0
 TRI_CELLS = [[0, 1, 4], [0, 4, 3], [1, 2, 5], [1, 5, 4], [3, 4, 6], [4, 7, 6], [4, 5, 7]]
 
 
+MIX_PTS = [[0.0, 0.0], [1.0, 0.0], [2.0, 0.1], [0.0, 1.0], [1.1, 1.0], [2.0, 1.2], [0.5, 2.0], [1.6, 2.1]]
+MIX_CELLS = [[0, 1, 4, 3], [1, 2, 5, 4], [3, 4, 6, -1], [4, 7, 6, -1], [4, 5, 7, -1]]
+MIX_TYPES = None
+
+
 def mk(spec):
+    if spec.get("relocate"):
+        # the grid object was created for the other data location, its data points were read, then the location was switched
+        other = {"CELLS": "POINTS", "POINTS": "CELLS"}[spec.get("loc", "CELLS")]
+        g = mk(dict(spec, relocate=False, loc=other))
+        _ = g.data_points, g.data_shape, g.data_size
+        g.data_location = spec.get("loc", "CELLS")
+        return g
+    return mk_plain(spec)
+
+
+def mk_plain(spec):
     k = spec["kind"]
     lay = spec.get("lay") or dict(order="F", rev=False, inc=[True, True, True])
     loc = spec.get("loc", "CELLS")
@@ -45,6 +61,8 @@ def mk(spec):
         return fm.UniformGrid((2, 3, 3), spacing=(1.3, 0.7, 0.5), origin=(0.1, 0.1, 0.05), order=lay["order"], axes_reversed=lay["rev"], axes_increase=lay["inc"][:3], data_location=loc)
     if k == "tri":
         return fm.UnstructuredGrid(TRI_PTS, TRI_CELLS, [fm.CellType.TRI] * len(TRI_CELLS), data_location=loc, order=lay["order"])
+    if k == "mix":  # triangles and quads in one mesh (padded cell matrix)
+        return fm.UnstructuredGrid(MIX_PTS, MIX_CELLS, [fm.CellType.QUAD, fm.CellType.QUAD, fm.CellType.TRI, fm.CellType.TRI, fm.CellType.TRI], data_location=loc, order=lay["order"])
     if k == "pts":
         return fm.UnstructuredPoints([[0.1, 0.1], [1.9, 0.3], [0.4, 1.7], [1.2, 0.9], [2.2, 1.8], [0.9, 0.2]], order=lay["order"])
     raise ValueError(k)
@@ -246,8 +264,11 @@ def items(tier):
         for l in L2:
             out.append(dict(kind="nearest", src=dict(kind="esri", lay=dict(order=order, rev=True, inc=[True, False])), dst=dict(kind="uni2b", lay=l, loc="POINTS")))
             out.append(dict(kind="nearest", src=dict(kind="uni2", lay=l, loc="CELLS"), dst=dict(kind="esri", lay=dict(order=order, rev=True, inc=[True, False]))))
-            for uk, ul in (("tri", "CELLS"), ("tri", "POINTS"), ("pts", "POINTS")):
+            for uk, ul in (("tri", "CELLS"), ("tri", "POINTS"), ("pts", "POINTS"), ("mix", "CELLS"), ("mix", "POINTS")):
                 out.append(dict(kind="nearest", src=dict(kind=uk, loc=ul, lay=dict(order=order, rev=False, inc=[True, True])), dst=dict(kind="uni2b", lay=l, loc="CELLS")))
+                if uk != "pts" and l == L2[0]:
+                    out.append(dict(kind="nearest", src=dict(kind=uk, loc=ul, relocate=True, lay=dict(order=order, rev=False, inc=[True, True])), dst=dict(kind="uni2b", lay=l, loc="CELLS")))
+                    out.append(dict(kind="nearest", src=dict(kind="uni2", loc="CELLS", relocate=True, lay=l), dst=dict(kind=uk, loc=ul, relocate=True, lay=dict(order=order, rev=False, inc=[True, True]))))
                 out.append(dict(kind="nearest", src=dict(kind="uni2", lay=l, loc="POINTS"), dst=dict(kind=uk, loc=ul, lay=dict(order=order, rev=False, inc=[True, True]))))
     # ALL source masks on a 6-cell source x all source layouts x 4 target layouts (both orders); ALL target masks on a 6-cell target
     tl = [l for l in L2 if l["inc"] == [True, True] or (l["order"] == "C" and l["rev"])]
@@ -265,7 +286,7 @@ def items(tier):
     # linear: unstructured sources and masked structured sources
     for fill in (False, True):
         for l2 in L2:
-            for uk, ul in (("tri", "POINTS"), ("tri", "CELLS"), ("pts", "POINTS")):
+            for uk, ul in (("tri", "POINTS"), ("tri", "CELLS"), ("pts", "POINTS"), ("mix", "CELLS")):
                 for order in "FC":
                     out.append(dict(kind="linear", src=dict(kind=uk, loc=ul, lay=dict(order=order, rev=False, inc=[True, True])), dst=dict(kind="uni2b", lay=l2, loc="POINTS"), fill=fill, unit_vectors=(l2 == L2[0])))
         fam = [1, 2, 4, 32, 33, 2049, 1 + 1024, 5, 4 + 64, 3000, 36]  # masks over the 12 points of uni2/POINTS (single, corners, pairs, scattered)
